@@ -463,7 +463,9 @@ def prepare(case, res):
         out = []
         for d in lst:
             parts = d.rsplit("|", 2)
-            if len(parts) != 3 or d.startswith(("ERR:", "PANIC:")):
+            if d == "ERR:no match set hit":
+                out.append((7777, False))
+            elif len(parts) != 3 or d.startswith(("ERR:", "PANIC:")):
                 out.append((mid("<" + d + ">", 0) + 5000, False))
             else:
                 out.append((mid(parts[0], int(parts[1])), parts[2] == "true"))
@@ -711,9 +713,15 @@ def run_coq(prepared, tag):
     return errors, sigs, None
 
 
-def evaluate(sc, binary, cases, tag, isolate=False):
-    """-> list of dicts per case: {errors:[(i,code)], sig, skip, crashed, P}, fatal error text"""
-    results, note = run_impl(sc, binary, cases, tag, isolate=isolate)
+def evaluate(sc, binary, cases, tag, isolate=False, isolate_from=None):
+    """-> list of dicts per case: {errors:[(i,code)], sig, skip, crashed, P}, fatal error text.
+    cases[isolate_from:] are run one process per case (they may kill the process)."""
+    if isolate_from is not None and not isolate:
+        r1, _ = run_impl(sc, binary, cases[:isolate_from], tag) if isolate_from > 0 else ([], None)
+        r2, _ = run_impl(sc, binary, cases[isolate_from:], tag + "i", isolate=True) if isolate_from < len(cases) else ([], None)
+        results = r1 + r2
+    else:
+        results, note = run_impl(sc, binary, cases, tag, isolate=isolate)
     prepared = [prepare(c, r) for c, r in zip(cases, results)]
     live = [P for P in prepared if P.skip is None]
     errors, sigs, err = run_coq(live, tag) if live else ([], [], None)
@@ -850,8 +858,51 @@ WHAT = {
 }
 
 
+def load_case(c):
+    c = dict(c)
+    c["rules"] = [dict(r, out=(r["out"][0], [tuple(p) for p in r["out"][1]]),
+                       funcs=[dict(f, params=[tuple(p) for p in f["params"]]) for f in r["funcs"]]) for r in c["rules"]]
+    return c
+
+
+def replay(path):
+    """re-run one recorded case against implementation, model and spec and print the three results"""
+    d = json.load(open(path))
+    payload = d.get("replay", d)
+    if "case" not in payload:
+        print(json.dumps({"error": "replay file names no input (no-failing-input-found record)", "file": path}))
+        return 2
+    case = load_case(payload["case"])
+    with vlib.Scratch() as sc:
+        binary, blog = vlib.build_go_test_binary(sc, "control", HARNESS)
+        if binary is None:
+            print(blog[-2000:])
+            return 2
+        evs, err = evaluate(sc, binary, [case], "replay", isolate=True)
+        if err:
+            print(err)
+            return 2
+        ev = evs[0]
+        P = ev["P"]
+        res = {"config_text": "\n".join(render_rule(r) for r in case["rules"]), "kind": case["kind"], "fallback": case["fallback"],
+               "check_errors(probe,code)": ev["errors"], "signature": ev["sig"], "classes": classify(ev) if spec_fails(ev) else [],
+               "crashed": ev["crashed"], "crash_note": case.get("_crash_note")}
+        if not ev["crashed"] and P.res:
+            res["impl_optimised_rules"] = P.res["stages"][-1] if P.res.get("stages") else None
+            res["impl_decisions_optimised_list"] = P.res.get("dec_opt")
+            res["impl_decisions_unmerged_list"] = P.res.get("dec_raw")
+            if P.dec:
+                names = {v: "%s|%d" % k for k, v in P.ids.items()}
+                res["spec_decisions"] = ["%s|%s" % (names.get(a, "?"), str(b).lower()) for a, b in py_spec_decisions(P)]
+            res["model"] = "model AST per stage and model decisions are compared inside C04_Check.check_case: codes 1/11/12 = impl<>model, 3/7 = model<>spec, 2/8/9 = impl<>spec"
+        print(json.dumps(res, indent=1))
+        return 1 if spec_fails(ev) else 0
+
+
 def main(argv):
     args = vlib.main_args(argv)
+    if args.replay:
+        return replay(args.replay)
     out = vlib.Outcome(PID, args.tier, args.seed)
     rng = vlib.rng_for(args.seed, PID)
     quick = args.tier == "quick"
@@ -877,7 +928,7 @@ def main(argv):
                "pkg/geodata protobuf reader and netip prefix printing (the generator's own reading of its .dat data is compared with the model's expansion and with the implementation's)",
                "lowering of the AST to match sets is modelled at the level of (condition, key) groups (RulesBuilder.Apply, groupParamValuesByKey, scan loop); what each function parser does inside a group is C01/C07 and enters only through the real matchers' decisions on probe packets"]}
     out.coverage = cov
-    out.assumptions = ["a value holds or not for a packet independently of the other values of its condition (function = negation xor OR of its values)",
+    out.assumptions = ["a value holds or not for a packet independently of the other values of its condition (function = negation xor OR of its values); the implicit zero-MAC exclusion of negated mac() conditions is outside this reading, all probes carry a non-zero MAC",
                        "aliases and geodata references mean what the documentation says (alias_respecting, geo_respecting)",
                        "rule lists whose unoptimised form does not build (unknown function, malformed value) are outside the quantifier; only the error/no-error agreement of the pipeline with the model is compared for them"]
 
@@ -893,9 +944,7 @@ def main(argv):
         if os.path.isdir(cdir):
             for nm in sorted(os.listdir(cdir)):
                 if nm.endswith(".json"):
-                    c = json.load(open(os.path.join(cdir, nm)))
-                    c["rules"] = [dict(r, out=(r["out"][0], [tuple(p) for p in r["out"][1]]),
-                                       funcs=[dict(f, params=[tuple(p) for p in f["params"]]) for f in r["funcs"]]) for r in c["rules"]]
+                    c = load_case(json.load(open(os.path.join(cdir, nm))))
                     c["_corpus"] = nm
                     corpus.append(c)
         corpus_risky = [c for c in corpus if c.get("risky")]
@@ -907,19 +956,15 @@ def main(argv):
         all_ev = []
         fatal = None
         shard = 400
+        n_main = len(cases)
+        cases = cases + risky
         for s in range(0, len(cases), shard):
-            evs, err = evaluate(sc, binary, cases[s:s + shard], "b%d" % s)
+            hi = min(s + shard, len(cases))
+            evs, err = evaluate(sc, binary, cases[s:hi], "b%d" % s, isolate_from=max(0, min(hi, n_main) - s) if hi > n_main else None)
             if err:
                 fatal = err
                 break
             all_ev += evs
-        if not fatal and risky:
-            evs, err = evaluate(sc, binary, risky, "risky", isolate=True)
-            if err:
-                fatal = err
-            else:
-                cases = cases + risky
-                all_ev += evs
 
         def tie_idx():
             # impl <> model on the AST after a stage (1), on decisions of the compiled program (11, 12), oracle (5, 6)
